@@ -325,9 +325,11 @@ class Interp(object):
             for x in e.values:
                 t = z3.simplify(truth(ctx, self.ev(x)))
                 # concrete short-circuit keeps specifications total
-                if isinstance(e.op, ast.And) and z3.is_false(t):
+                if isinstance(e.op, ast.And) and (
+                        z3.is_false(t) or ctx.decide(t) is False):
                     return VBool(False)
-                if isinstance(e.op, ast.Or) and z3.is_true(t):
+                if isinstance(e.op, ast.Or) and (
+                        z3.is_true(t) or ctx.decide(t) is True):
                     return VBool(True)
                 ts.append(t)
             if isinstance(e.op, ast.And):
@@ -476,7 +478,7 @@ class Interp(object):
             # lazy: the consequent is not evaluated under a false antecedent
             a0 = truth(self.ctx, self.ev(e.args[0]))
             a0 = z3.simplify(a0)
-            if z3.is_false(a0):
+            if z3.is_false(a0) or self.ctx.decide(a0) is False:
                 return VBool(True)
             return VBool(z3.Implies(a0, truth(self.ctx, self.ev(e.args[1]))))
         fn = self.ev(e.func)
